@@ -646,4 +646,14 @@ def no_alias_store(repo: Repo) -> RuleRun:
 no_alias_store.rule_id = "C07.NO-ALIAS-STORE"
 
 
-RULES = [kind_registry, dedup, direction, reversal, face_edge_slots, curve_direction, edge_slots, length_direction, arc_side, validity_tolerance, own_edge_data, no_memo, reflex_midpoint, arguments_untouched, beam_list, shared_curve, collinearity_scale_free, arc_sense, no_alias_store]
+def shear_unit_direction(repo: Repo) -> RuleRun:
+    """'every user-defined curved edge is written ... with the data given': sheared with its face, the points of a spline / polyLine edge move like the corners. Same rule as C09.SHEAR-UNIT-DIRECTION."""
+    from . import c09
+
+    return c09.shear_unit_direction(repo, PROP, "C07.SHEAR-UNIT-DIRECTION")
+
+
+shear_unit_direction.rule_id = "C07.SHEAR-UNIT-DIRECTION"
+
+
+RULES = [kind_registry, dedup, direction, reversal, face_edge_slots, curve_direction, edge_slots, length_direction, arc_side, validity_tolerance, own_edge_data, no_memo, reflex_midpoint, arguments_untouched, beam_list, shared_curve, collinearity_scale_free, arc_sense, no_alias_store, shear_unit_direction]
